@@ -84,6 +84,13 @@ func collectResets(gd *ast.GenDecl) {
 						resetNeedsSync = true
 						continue
 					}
+					if id, ok := c.Fun.(*ast.Ident); ok && id.Name == "make" && len(c.Args) >= 1 {
+						if _, isChan := c.Args[0].(*ast.ChanType); isChan {
+							// a package-level channel (free list, semaphore, ...) starts empty in a fresh process
+							resets = append(resets, name.Name+" = "+exprString(init))
+							continue
+						}
+					}
 					if id, ok := c.Fun.(*ast.Ident); ok && id.Name == "make" && len(c.Args) >= 1 && reCacheName.MatchString(name.Name) {
 						if _, ok := c.Args[0].(*ast.MapType); ok {
 							resets = append(resets, name.Name+" = make("+exprString(c.Args[0])+")")
@@ -542,7 +549,7 @@ func main() {
 		var rb strings.Builder
 		fmt.Fprintf(&rb, "package %s\n\n", pkgName)
 		if resetNeedsSync {
-			fmt.Fprintf(&rb, "import sync %q\n\n", mcPath+"/vsync")
+			fmt.Fprintf(&rb, "import \"sync\"\n\n")
 		}
 		rb.WriteString("// ZZVerifReset re-initialises the package's lazily filled caches (cold-process state).\nfunc ZZVerifReset() {\n")
 		for _, st := range resets {
@@ -550,10 +557,18 @@ func main() {
 		}
 		rb.WriteString("}\n")
 		rp := filepath.Join(odir, "zz_verif_reset.go")
-		if err := os.WriteFile(rp, []byte(rb.String()), 0o644); err != nil {
+		raw := filepath.Join(odir, "zz_verif_reset.go.in")
+		if err := os.WriteFile(raw, []byte(rb.String()), 0o644); err != nil {
 			fmt.Fprintln(os.Stderr, "instr:", err)
 			os.Exit(2)
 		}
+		saved, savedSync := resets, resetNeedsSync
+		if err := rewriteFile(raw, rp); err != nil { // the reset statements use plain Go (make(chan ...)): rewrite them too
+			fmt.Fprintln(os.Stderr, "instr: reset file:", err)
+			os.Exit(2)
+		}
+		resets, resetNeedsSync = saved, savedSync
+		_ = os.Remove(raw)
 		overlay[filepath.Join(dir, "zz_verif_reset.go")] = rp
 		resets, resetNeedsSync, pkgName = nil, false, ""
 	}
